@@ -128,6 +128,11 @@ let graph_ops = [| "add_node"; "try_add_node"; "add_edge"; "try_add_edge"; "upda
                    "extend_with_edges"; "filter_map"; "into_edge_type"; "set_node_weight"; "set_edge_weight";
                    "node_weight"; "edge_weight"; "edge_endpoints"; "find_edge"; "find_edge_undirected";
                    "edges_connecting"; "first_edge"; "next_edge"; "walker"; "map" |]
+let stable_ops = [| "add_node"; "try_add_node"; "add_edge"; "try_add_edge"; "update_edge"; "try_update_edge";
+                    "remove_node"; "remove_edge"; "reverse"; "clear"; "clear_edges"; "retain_nodes"; "retain_edges";
+                    "extend_with_edges"; "filter_map"; "map"; "set_node_weight"; "set_edge_weight";
+                    "node_weight"; "edge_weight"; "edge_endpoints"; "find_edge"; "find_edge_undirected";
+                    "edges_connecting"; "contains_node"; "walker"; "to_graph"; "compact" |]
 
 let () =
   let prop = Sys.argv.(1) and infile = Sys.argv.(2) and outfile = Sys.argv.(3) in
@@ -136,6 +141,7 @@ let () =
   (match prop with
    | "C19" -> C19.run_file lines oc
    | "C01" -> run_generic graph_ops all_tags GraphIO.run_case lines oc
+   | "C02" -> run_generic stable_ops all_tags StableIO.run_case lines oc
    | "C03" -> run_generic gmap_ops all_tags GraphMapM.run_case lines oc
    | "C04" -> run_generic mg_ops mg_tags MatrixM.run_case lines oc
    | "C05csr" -> run_generic csr_ops csr_tags CsrM.run_case lines oc
